@@ -149,6 +149,9 @@ fn txn_alphabet() -> Vec<&'static str> {
         // a posting amount whose expression leaves a zero-valued second commodity behind: accepted or refused, but the same way
         // every time
         "2024/01/22 q\n  A  (100 X + 5 Y - 5 Y)\n  B\n\n",
+        // an amount-less posting next to explicit postings in which one commodity already cancels: the inferred amount
+        // carries a zero-valued X next to a non-zero Y, and a conversion walks over both entries of that map
+        "2024/01/23 r\n  A  1 X\n  A  2 Y\n  C  -1 X\n  B\n\n",
         "2024/01/18 k\n  H  1 P @ 5.1111111111111111111111111111 Z\n  H  1 Q @ 4.0000000000000000000000000004 Z\n  H  -1 R @ 4.0000000000000000000000000004 Z\n  B\n\n",
     ]
 }
@@ -166,6 +169,9 @@ fn commands(path: &str) -> Vec<Vec<String>> {
         s(&["okane", "balance", "-X", "X", "--now", "2024-01-12", "--start", "2024-01-11", path]),
         s(&["okane", "primitive", "eval", "--date", "2024-02-01", "-f", path, "1 X + 2 Y + 3 Z"]),
         s(&["okane", "primitive", "eval", "--date", "2024-02-01", "-X", "Z", "-f", path, "1 X + 2 Y"]),
+        // an expression that leaves a zero-valued commodity next to a non-zero one, converted
+        s(&["okane", "primitive", "eval", "--date", "2024-02-01", "-X", "Z", "-f", path, "1 X - 1 X + 2 Y"]),
+        s(&["okane", "balance", "-X", "Z", "--historical", "--now", "2024-02-01", path]),
     ]
 }
 
